@@ -104,11 +104,12 @@ def tlc(wd, module, cfg_text, args, env=None, heap="4g", timeout=3600, cfg_name=
     return p.returncode, p.stdout + p.stderr
 
 
-def mc_cfg(family, cfgs, bounds, invariants, emit=False, view=True):
+def mc_cfg(family, cfgs, bounds, invariants, emit=False, view=True, emit_all=False):
     lines = ["SPECIFICATION Spec", "CONSTANTS", f'  Family = "{family}"', f"  Cfgs <- {cfgs}"]
     for k in ("MaxCodes", "MaxAT", "MaxRT", "MaxNow", "MaxDev", "MaxPar", "Depth"):
         lines.append(f"  {k} = {bounds[k]}")
     lines.append(f"  Emit = {'TRUE' if emit else 'FALSE'}")
+    lines.append(f"  EmitAll = {'TRUE' if emit_all else 'FALSE'}")
     if invariants:
         lines.append("INVARIANTS " + " ".join(invariants))
     if view:
@@ -178,13 +179,26 @@ def gen_simulate(family, cfgs, bounds, wd, num, seed, workers=4, timeout=1200):
 
 
 def gen_exhaustive(family, cfgs, bounds, wd, timeout=1800):
-    """Every behaviour of the specification of length Depth (BFS with the history in the state)."""
-    cfg = mc_cfg(family, cfgs, bounds, ["EmitHist"], emit=True, view=False)
+    """State cover: BFS over the bounded model with the VIEW that hides the history; TLC prints the
+    history stored with every state it finds new, i.e. one shortest witness per distinct abstract
+    state of the bounded design. Histories that are prefixes of other witnesses are dropped (the
+    longer one passes through the same states)."""
+    cfg = mc_cfg(family, cfgs, bounds, ["EmitHist"], emit=True, view=True, emit_all=True)
     rc, out = tlc(wd, "MCGrants", cfg, ["-workers", str(NCPU)], heap="12g", timeout=timeout, cfg_name=f"genx_{family}.cfg")
     hs = parse_hist(out)
     if not hs:
-        raise Indeterminate("TLC exhaustive generation produced no behaviours:\n" + out[-3000:])
-    return hs, parse_mc(out)
+        raise Indeterminate("TLC state-cover generation produced no behaviours:\n" + out[-3000:])
+    keyed = {}
+    for h in hs:
+        keyed[(json.dumps(h["cfg"], sort_keys=True), tuple(json.dumps(o, sort_keys=True) for o in h["ops"]))] = h
+    prefixes = set()
+    for (c, ops) in keyed:
+        for n in range(1, len(ops)):
+            prefixes.add((c, ops[:n]))
+    kept = [h for k, h in keyed.items() if k not in prefixes]
+    st = parse_mc(out)
+    st["witnesses"] = len(hs)
+    return kept, st
 
 
 def validate_traces(trace_files, wd, module="TraceGrants"):
@@ -326,6 +340,11 @@ def classify(m, prop):
         if prop == "C17":
             viol = True
         texts.append(f"{op}: resulting request differs: spec '{m['exp_note']}' impl '{m['obs_note']}'")
+    if prop == "C08" and op == "revoke" and m["exp_reason"] in ("revoke_already_inactive", "revoke_unknown", "revoke_foreign_client",
+                                                                "client_unauthenticated", "client_bad_secret") \
+            and (fields & {"probe_active", "proj", "probe_payload"}):
+        viol = True
+        texts.append("revoke: the specification leaves the state unchanged for this request (" + m["exp_reason"] + ") but the implementation changed it")
     if "proj" in fields:
         d = {k: (m["exp_proj"][k], m["obs_proj"][k]) for k in m["exp_proj"] if m["exp_proj"][k] != m["obs_proj"].get(k)}
         texts.append(f"after {op}: store projection differs {d}")
